@@ -107,6 +107,16 @@ class Closure:
         return f"<closure {getattr(self.func, 'qualname', 'lambda')}>"
 
 
+class Partial:
+    """functools.partial(func, *args, **kwargs)."""
+
+    def __init__(self, func, args, kwargs):
+        self.func, self.args, self.kwargs = func, tuple(args), dict(kwargs)
+
+    def __repr__(self):
+        return f"partial({self.func!r}, ...)"
+
+
 class Raised(Exception):
     def __init__(self, exc, node=None):
         super().__init__(str(exc))
@@ -765,7 +775,7 @@ class Interp:
             lo = self.eval(e.slice.lower, env, mod) if e.slice.lower else None
             hi = self.eval(e.slice.upper, env, mod) if e.slice.upper else None
             st = self.eval(e.slice.step, env, mod) if e.slice.step else None
-            if isinstance(c, (list, tuple, str)):
+            if isinstance(c, (list, tuple, str)) and all(x is None or (isinstance(x, int) and not isinstance(x, bool)) for x in (lo, hi, st)):
                 return c[slice(lo, hi, st)]
             return self.get_item(c, Sym("slice", lo, hi, st), e)
         k = self.eval(e.slice, env, mod)
@@ -955,6 +965,9 @@ class Interp:
         return self.call(fv, args, kwargs, e, mod)
 
     def call(self, fv, args, kwargs, node, mod):
+        if isinstance(fv, Partial):
+            # functools.partial: the frozen arguments come first, later keywords override frozen ones
+            return self.call(fv.func, list(fv.args) + list(args), {**fv.kwargs, **kwargs}, node, mod)
         r = self.call_hook(fv, args, kwargs, node, mod)
         if r is not NotImplemented:
             return r
